@@ -1,0 +1,12 @@
+//go:build verif
+
+package count
+
+// Contracts for uda/count (C23), checked by /verif/govc. Compiled only with -tags=verif.
+
+//@ func (*Count).Accum
+//@ props C23
+//@ option nooverflow
+//@ requires #noOverflow: c.Sum >= 0 && c.Sum <= 4611686018427387904
+//@ exit #sum: c.Sum == old(c.Sum) + colLen(cols)
+//@ ensures #ok: result1 == nil
